@@ -245,6 +245,7 @@ func (fr *frame) nameTerm(t *Term) *Term {
 	v := p.freshVar("t", t.S)
 	p.pc = append(p.pc, tEq(v, t))
 	p.named[t.String()] = v
+	p.namedDef[v.Name] = t
 	return v
 }
 
@@ -343,6 +344,9 @@ func initStringIntrinsics() {
 			return fr.strV(strReplaceFirst(lift(a[0]), lift(a[1]), lift(a[2])))
 		}
 		panic(engineError("strings.Replace with n > 1 on symbolic string"))
+	}))
+	reg("regexp.QuoteMeta", symOnly(func(fr *frame, a []value) value {
+		return mkApp("go_quotemeta", sortStr, lift(a[0]))
 	}))
 	reg("strings.ToLower", symOnly(func(fr *frame, a []value) value {
 		return mkApp("go_tolower", sortStr, lift(a[0]))
@@ -537,9 +541,6 @@ func initStringIntrinsics() {
 	reg("(*strings.Builder).Cap", func(fr *frame, a []value) (value, bool) { return 0, true })
 }
 
-func regexFullMatch(fr *frame, pat, s *Term) *Term {
-	panic(engineError("vp.RegexFullMatch not implemented yet"))
-}
 
 func needPathOrInit(fr *frame) map[any]any {
 	if fr.i.path != nil {
